@@ -694,6 +694,13 @@ func (g *txnGen) genOp() OperationJ {
 	}
 }
 
+// genDoubleMutateTxn: one row's set or map column changed by several operations of one transaction
+func genDoubleMutateTxn(rng *rand.Rand, ts TxnSchema, sh *shadow) (TxnJ, bool) {
+	g := &txnGen{rng: rng, ts: ts, sh: sh, named: map[string]string{}, inserted: map[string][]string{}}
+	ops := g.genDoubleMutate()
+	return TxnJ{Ops: ops}, len(ops) > 0
+}
+
 // genChainTxn: a transaction about chains (see genChainBuild / genChainDrop), with up to two other operations
 func genChainTxn(rng *rand.Rand, ts TxnSchema, sh *shadow) TxnJ {
 	g := &txnGen{rng: rng, ts: ts, sh: sh, named: map[string]string{}, inserted: map[string][]string{}}
@@ -724,7 +731,7 @@ func genTxn(rng *rand.Rand, ts TxnSchema, sh *shadow, nops int) TxnJ {
 		}
 		sh.pending = nil
 	}
-	switch rng.Intn(26) {
+	switch rng.Intn(30) {
 	case 17, 18:
 		// a row changes its value in one schema index of a table that has several; the next transaction
 		// claims the value it still holds in another one (which must be refused)
@@ -738,7 +745,12 @@ func genTxn(rng *rand.Rand, ts TxnSchema, sh *shadow, nops int) TxnJ {
 		if op, ok := g.genWaitRow(); ok {
 			t.Ops = append(t.Ops, op)
 		}
-	case 25:
+	case 26, 27:
+		// an update that some of the selected rows cannot take, after an operation that can be carried out
+		if op, ok := g.genPartialFail(); ok {
+			t.Ops = append(t.Ops, g.genOp(), op)
+		}
+	case 25, 28, 29:
 		// arithmetic that leaves the range of the column's type: 2^62 times 2 or 3, 2^62 added twice,
 		// a real multiplied beyond the largest float64 (powers of two: every intermediate value is exact)
 		if op, ok := g.genOverflow(); ok {
@@ -1220,8 +1232,40 @@ func (g *txnGen) genDoubleMutate() []OperationJ {
 		return nil
 	}
 	x := cands[g.rng.Intn(len(cands))]
+	// collections with a finite bound above one are a kind of their own in the merging code: prefer them
+	var bounded []cand
+	for _, c := range cands {
+		if c.c.Type.Max > 1 {
+			bounded = append(bounded, c)
+		}
+	}
+	if len(bounded) > 0 && g.rng.Intn(3) != 0 {
+		x = bounded[g.rng.Intn(len(bounded))]
+	}
 	var ops []OperationJ
 	var last *Value
+	if x.c.Type.Max > 1 && g.rng.Intn(2) == 0 {
+		// two operations that each add something of their own: neither difference is the whole change
+		fresh := func(i int) *Value {
+			k := int64(1000*i + g.rng.Intn(1000))
+			atom := func(t string) Atom {
+				if t == "integer" {
+					return AI(k)
+				}
+				return AS(fmt.Sprintf("f%d", k))
+			}
+			if x.c.Type.Kind == "map" {
+				return VM([2]Atom{atom(x.c.Type.Key), atom(x.c.Type.Val)})
+			}
+			return VS(atom(x.c.Type.Key))
+		}
+		if x.c.Type.Key == "integer" || x.c.Type.Key == "string" {
+			for i := 1; i <= 2; i++ {
+				ops = append(ops, OperationJ{Op: "mutate", Table: x.t.Name, Mutations: []MutationJ{{Col: x.c.Name, Mutator: "insert", Val: fresh(i)}}, Where: byUUID(x.u)})
+			}
+			return ops
+		}
+	}
 	for k := 2 + g.rng.Intn(2); k > 0; k-- {
 		v := g.genColValue(x.c)
 		mut := []string{"insert", "insert", "delete"}[g.rng.Intn(3)]
@@ -1361,13 +1405,60 @@ func (g *txnGen) genOneIndexUpdate() []OperationJ {
 	return nil
 }
 
+// genPartialFail: an operation on several rows that can be carried out for some of them only: every row of a
+// table is given the value one of them holds in an immutable column (the others would have to change it). The
+// operation fails as a whole, whichever row the implementation happens to visit last.
+func (g *txnGen) genPartialFail() (OperationJ, bool) {
+	for _, t := range g.ts.Spec.Tables {
+		if t.Col("fixed") == nil {
+			continue
+		}
+		us := g.sh.uuids(t.Name)
+		vals := map[string]*Value{}
+		for _, u := range us {
+			if v := g.sh.rows[t.Name][u]["fixed"]; v != nil {
+				vals[v.Canon()] = v
+			}
+		}
+		if len(us) < 2 || len(vals) < 2 {
+			continue
+		}
+		keep := g.sh.rows[t.Name][us[g.rng.Intn(len(us))]]["fixed"]
+		row := Row{"fixed": nativeToOvsValue(keep), "n": VA(AI(int64(g.rng.Intn(4))))}
+		return OperationJ{Op: "update", Table: t.Name, Row: row}, true
+	}
+	return OperationJ{}, false
+}
+
 // genOverflow: arithmetic mutations whose result may leave the range of the column's type
 func (g *txnGen) genOverflow() (OperationJ, bool) {
 	rng := g.rng
 	t := g.ts.Spec.Tables[rng.Intn(len(g.ts.Spec.Tables))]
 	var ms []MutationJ
 	big := int64(1) << 62
-	switch rng.Intn(4) {
+	minInt := int64(math.MinInt64) // -2^63: the one integer whose negation is out of range (exact in float64)
+	switch rng.Intn(9) {
+	case 4:
+		ms = []MutationJ{{Col: "n", Mutator: "-=", Val: VA(AI(minInt))}}
+	case 5:
+		ms = []MutationJ{{Col: "n", Mutator: "+=", Val: VA(AI(minInt))}}
+	case 6:
+		ms = []MutationJ{{Col: "n", Mutator: []string{"*=", "/="}[rng.Intn(2)], Val: VA(AI(-1))}}
+	case 7:
+		// a row that holds -2^63 (for the mutations above to meet)
+		row := Row{}
+		for _, c := range t.Cols {
+			if c.RefTable == "" && c.ValRefTable == "" && rng.Intn(2) == 0 {
+				row[c.Name] = nativeToOvsValue(g.genColValue(c))
+			}
+		}
+		row["n"] = VA(AI(minInt))
+		row["name"] = VA(AS(fmt.Sprintf("min%d", rng.Intn(100000))))
+		op := OperationJ{Op: "insert", Table: t.Name, Row: row, UUID: g.sh.fresh()}
+		g.inserted[t.Name] = append(g.inserted[t.Name], op.UUID)
+		return op, true
+	case 8:
+		ms = []MutationJ{{Col: "n", Mutator: "-=", Val: VA(AI(minInt))}, {Col: "n", Mutator: "-=", Val: VA(AI(minInt))}}
 	case 0:
 		ms = []MutationJ{{Col: "n", Mutator: "*=", Val: VA(AI(big))}}
 	case 1:
